@@ -174,6 +174,15 @@ func (pp c08) Run(c *core.Ctx, idx int) {
 	o.NonConfig = idx%2 == 0
 	o.KeyTypes = []string{"string", "int32", "int64", "uint8", "uint32", "enumeration", "boolean", "int8", "uint16", "uint64", "int16", "identityref", "decimal64"}
 	s := dp.GenSchema(r, o)
+	fixture := idx == 1 || idx == 2
+	if fixture {
+		// every reserved character as (part of) a key, single and composite, on every run
+		str := func(n string) *dp.SNode { return &dp.SNode{Kind: dp.Leaf, Name: n, Type: &dp.SType{Base: "string"}} }
+		s = &dp.Schema{Name: "m", Prefix: "m", NS: "urn:m", Top: []*dp.SNode{
+			{Kind: dp.List, Name: "l", Keys: []string{"k"}, Children: []*dp.SNode{str("k"), str("v"), {Kind: dp.Container, Name: "sub", Children: []*dp.SNode{str("w")}}}},
+			{Kind: dp.List, Name: "l2", Keys: []string{"a", "b"}, Children: []*dp.SNode{str("a"), str("b"), str("v")}},
+		}}
+	}
 	if err := s.Compile(); err != nil {
 		c.R.Inconclusive = "generated schema does not compile: " + head(err.Error(), 300)
 		return
@@ -183,6 +192,29 @@ func (pp c08) Run(c *core.Ctx, idx int) {
 	do.MaxEntries = 1 + r.Intn(4)
 	do.PKid = 0.85
 	t := dp.GenTree(r, s, do)
+	if fixture {
+		t = dp.NewDNode(nil)
+		l1, l2 := &dp.DList{S: s.Top[0]}, &dp.DList{S: s.Top[1]}
+		t.Lists["l"], t.Lists["l2"] = l1, l2
+		keys := dp.HostileStrings()
+		for i, k := range keys {
+			if k == "" {
+				continue
+			}
+			e := dp.NewDNode(s.Top[0])
+			e.Leaves["k"] = &dp.LVal{V: []string{k}}
+			e.Leaves["v"] = &dp.LVal{V: []string{fmt.Sprintf("v%d", i)}}
+			sub := dp.NewDNode(s.Top[0].Children[2])
+			sub.Leaves["w"] = &dp.LVal{V: []string{fmt.Sprintf("w%d", i)}}
+			e.Kids["sub"] = sub
+			l1.Entries = append(l1.Entries, e)
+			e2 := dp.NewDNode(s.Top[1])
+			e2.Leaves["a"] = &dp.LVal{V: []string{k}}
+			e2.Leaves["b"] = &dp.LVal{V: []string{keys[(i*7+3)%len(keys)] + "x"}}
+			e2.Leaves["v"] = &dp.LVal{V: []string{fmt.Sprintf("c%d", i)}}
+			l2.Entries = append(l2.Entries, e2)
+		}
+	}
 	pristine := t.Clone()
 	store := dp.NewStore(s, t)
 	useJSON := idx%4 == 2
@@ -203,7 +235,7 @@ func (pp c08) Run(c *core.Ctx, idx int) {
 	c.SetSample(map[string]interface{}{"yang": head(s.Yang(), 1200), "tree": head(t.Dump(s), 1200)})
 
 	paths := t.AllPaths()
-	if len(paths) > 40 {
+	if len(paths) > 40 && !fixture {
 		r.Shuffle(len(paths), func(i, j int) { paths[i], paths[j] = paths[j], paths[i] })
 		paths = paths[:40]
 	}
